@@ -27,14 +27,18 @@ Next ==
                            /\ Report("Crypto", e.opens = "PS-Msg06" /\ SetOf(e.inner) = {1, 3, 10} /\ Once(e.inner))
                            /\ Report("Crypto", e.sig = "x|id|ltpk" /\ e.idok)
                            /\ Report("Stored", e.stored)
-       [] e.name = "V2" -> /\ Report("Structure", e.http = 200 /\ e.framed = "plain" /\ SetOf(e.tags) = {6, 3, 5} /\ e.state = 2 /\ e.publen = 32)
+       \* the first pair-verify of a connection travels in plaintext, a later one in the session it replaces
+       [] e.name = "V2" -> /\ Report("Structure", e.http = 200 /\ SetOf(e.tags) = {6, 3, 5} /\ e.state = 2 /\ e.publen = 32)
+                           /\ Report(IF e.nth = 1 THEN "Structure" ELSE "SwitchAtomic", e.framed = (IF e.nth = 1 THEN "plain" ELSE "enc"))
                            /\ Report("ItemsOnce", Once(e.tags))
                            /\ Report("Crypto", e.opens = "PV-Msg02" /\ SetOf(e.inner) = {1, 10} /\ Once(e.inner))
                            /\ Report("Crypto", e.sig = "accEph|id|ctrlEph" /\ e.idok)
        [] e.name = "V4" -> /\ Report("Structure", e.http = 200 /\ SetOf(e.tags) = {6} /\ e.state = 4)
                            /\ Report("ItemsOnce", Once(e.tags))
-                           /\ Report("V4Plain", e.framed = "plain")
+                           /\ Report(IF e.nth = 1 THEN "V4Plain" ELSE "SwitchAtomic", e.framed = (IF e.nth = 1 THEN "plain" ELSE "enc"))
        [] e.name = "resp" -> /\ Report("Talk", e.http = e.want /\ e.framed = "enc" /\ e.bodyok)
+       \* what the accessory sends of its own accord is framed the way the controller opens it at that point
+       [] e.name = "event" -> Report("SwitchAtomic", e.framed = e.expected)
        [] e.name = "fail" -> Report(e.rule, FALSE)       \* the run could not proceed: e.rule says where
        [] OTHER -> TRUE
   /\ l' = l + 1
